@@ -514,6 +514,7 @@ def settings_stream(ctx, rng, count):
 def run(ctx):
     rng = ctx.rng
     ctx.lean = common.lean_check('C11')
+    common.run_regressions(ctx, 'C11', lambda r: recheck(r))
     quick = ctx.quick()
     H = 150 if quick else 1500
     maxops = 8 if quick else 20
@@ -607,3 +608,6 @@ def replay(obj):
             print('  ', what)
         return 1 if problems else 0
     return 1
+
+
+recheck = common.recheck_via_replay(replay)
